@@ -13,12 +13,9 @@ package main
 import (
 	"bytes"
 	"context"
-	"crypto/sha256"
-	_ "crypto/sha256"
+	"crypto/sha256" // also registers the algorithm with go-digest
 	"crypto/sha512"
-	_ "crypto/sha512"
 	"encoding/hex"
-	"errors"
 	"fmt"
 	"math/rand/v2"
 	"os"
@@ -963,5 +960,3 @@ func caseTamper(res *worker.Result, rng *rand.Rand, root string, idx int) {
 		res.Sample = map[string]any{"phase": "tamper", "title": q(title), "entries": len(t.Entries), "blob": desc.Digest.String(), "uncompressed": ann}
 	}
 }
-
-var _ = errors.Is
